@@ -233,12 +233,13 @@ impl core::hash::Hasher for TraceHasher {
         // strings / byte slices: record length and up to 3 bytes packed (the harnesses hash strings of at
         // most 2 bytes; the bound keeps this loop inside the smallest unwind used, also when a longer
         // buffer is hashed by mistake)
-        let mut v: u128 = bytes.len() as u128;
-        let mut i = 0;
-        while i < bytes.len() && i < 3 {
-            v = (v << 8) | bytes[i] as u128;
-            i += 1;
-        }
+        // loop-free on purpose: a variant of the code that hashes a longer buffer must yield a verdict,
+        // not a failed unwinding assertion
+        let n = bytes.len();
+        let b0 = if n > 0 { bytes[0] } else { 0 };
+        let b1 = if n > 1 { bytes[1] } else { 0 };
+        let b2 = if n > 2 { bytes[2] } else { 0 };
+        let v: u128 = ((n as u128) << 24) | ((b0 as u128) << 16) | ((b1 as u128) << 8) | b2 as u128;
         self.rec(1, v);
     }
     fn write_u8(&mut self, i: u8) {
@@ -290,3 +291,9 @@ pub(crate) fn random_state_stub() -> std::hash::RandomState {
 pub(crate) fn op_error_stub(_op: &str, _lhs: &crate::Value, _rhs: &crate::Value) -> crate::Error {
     crate::Error::from(crate::ErrorKind::InvalidOperation)
 }
+
+/// Stub for `Arc::drop_slow` (what runs when the last strong reference goes away): leak the allocation
+/// instead of running the payload's drop glue.  Used by harnesses in which shared compiled templates /
+/// environments are replaced or evicted: their drop glue (instruction vectors, block maps, boxed closures) is
+/// what CBMC does not get through, and it has no influence on what the container serves afterwards.
+pub(crate) fn arc_drop_slow_leak<T: ?Sized, A: core::alloc::Allocator>(_this: &mut std::sync::Arc<T, A>) {}
